@@ -58,6 +58,9 @@ func main() {
 	verif := fs.String("verif", "/verif", "verif dir (known_findings.json)")
 	out := fs.String("out", "", "directory receiving evidence/ (default: the verif dir)")
 	overlay := fs.String("overlay", "", "comma-separated /repo/file.go=/path/replacement.go (self-tests only)")
+	goos := fs.String("goos", "", "analyse under this GOOS (thorough tier's second build context)")
+	goarch := fs.String("goarch", "", "analyse under this GOARCH")
+	sub := fs.Bool("sub", false, "internal: a sub-run of the thorough tier (no further fan-out)")
 	fs.Parse(os.Args[3:])
 	seed, _ := strconv.Atoi(os.Getenv("VERIF_SEED"))
 
@@ -99,7 +102,7 @@ func main() {
 			ov[p[0]] = b
 		}
 	}
-	lp, err := load.Load(load.Options{Repo: *repo, Overlay: ov})
+	lp, err := load.Load(load.Options{Repo: *repo, Overlay: ov, GOOS: *goos, GOARCH: *goarch})
 	if err != nil {
 		fmt.Fprintln(os.Stderr, "BROKEN: load:", err)
 		os.Exit(2)
@@ -113,6 +116,12 @@ func main() {
 		e := r.Print(*verbose, outDir)
 		if e == 1 || (e == 2 && exit == 0) {
 			exit = e
+		}
+		if *tier == "thorough" && !*sub {
+			e2 := runThorough(id, *repo, *verif, outDir)
+			if e2 == 1 || (e2 == 2 && exit == 0) {
+				exit = e2
+			}
 		}
 	}
 	os.Exit(exit)
